@@ -138,7 +138,7 @@ inline bool lifecycle_S(Rng& r, uint64_t idx)
   std::map<std::string, uint32_t> gen;
   std::set<std::string> retired; // removed without blocking: never re-created in this scenario (documented contract)
   bool ok = true;
-  uint64_t removals_with_queued = 0, recreations = 0, blocking_removals = 0, csv_cycles = 0;
+  uint64_t removals_with_queued = 0, recreations = 0, blocking_removals = 0, csv_cycles = 0, sink_recreations = 0;
   auto alive_inc = [&](std::string const& n) -> Incarnation*
   {
     for (auto& i : lw.incs) if (i.name == n && i.alive) return &i;
@@ -280,6 +280,31 @@ inline bool lifecycle_S(Rng& r, uint64_t idx)
       (void)sp;
       continue;
     }
+    if (x >= 97)
+    {
+      // a sink name whose previous object is gone (nobody removed a logger in between, so the registry may still hold
+      // the expired entry): creating it again gives a fresh object, and from then on lookups by that name are
+      // idempotent again (create_or_get and get return that same object)
+      bool* okp = &ok;
+      std::string const tn = lw.tag + "_tmp" + std::to_string(r.below(2));
+      ++sink_recreations;
+      run.run_on(s, [tn, okp]
+                 {
+                   { auto first = Fe::create_or_get_sink<RecSink>(tn, 999990u); }
+                   auto second = Fe::create_or_get_sink<RecSink>(tn, 999991u);
+                   auto third = Fe::create_or_get_sink<RecSink>(tn, 999992u);
+                   std::shared_ptr<quill::Sink> looked_up;
+                   bool threw = false;
+                   try { looked_up = Fe::get_sink(tn); } catch (std::exception const&) { threw = true; }
+                   if (second.get() != third.get() || threw || looked_up.get() != second.get())
+                   {
+                     violation("C17", "create-or-get-sink-returned-a-different-object", J{}.str("sink_name", tn).boolean("get_sink_threw", threw).boolean("second_create_same_object", second.get() == third.get()).str("scenario", "lifecycle_S: name re-created after its sink expired"));
+                     *okp = false;
+                   }
+                 },
+                 "recreate_sink_name");
+      continue;
+    }
     // the user drops the reference to a sink
     uint32_t si = static_cast<uint32_t>(r.below(ns));
     if (lw.user_ref[si]) lw.user_ref[si].reset();
@@ -315,6 +340,7 @@ inline bool lifecycle_S(Rng& r, uint64_t idx)
   stat_add("lifecycle_recreations_under_same_name", static_cast<long long>(recreations));
   stat_add("lifecycle_blocking_removals", static_cast<long long>(blocking_removals));
   stat_add("lifecycle_nonblocking_removals", static_cast<long long>(removals_with_queued));
+  stat_add("lifecycle_sink_names_recreated_after_expiry", static_cast<long long>(sink_recreations));
   (void)csv_cycles;
   if (blocking_removals + removals_with_queued >= 2) stat_sig("lifecycle_sigs", std::to_string(run.sig_hash));
   return ok && !run.failed;
